@@ -170,7 +170,9 @@ package scale
 //@   assigns nothing
 
 //@ func Linear.guessLevel
-//@   inline
+//@   model real
+//@   requires s != nil && (s.Base == 0 || s.Base >= 2)
+//@   ensures true
 //@   assigns nothing
 
 //@ func Linear.spacingAtLevel
@@ -180,16 +182,94 @@ package scale
 //@   let slack = (s.Max - s.Min) * 1e-10
 //@   ensures [spacing]  spacing == pow(eb, floor(level / 2.0)) * ((s.Base == 0 && level % 2 != 0) ? 5 : 1)
 //@   ensures [positive] spacing > 0
+//@   ensures [closed]   spacing == lsp(*s, level) && firstN == lfirst(*s, level, roundOut) && lastN == llast(*s, level, roundOut)
 //@   ensures [inside]   !roundOut ==> firstN * spacing >= s.Min - slack && lastN * spacing <= s.Max + slack
 //@   ensures [complete] !roundOut ==> (firstN - 1) * spacing < s.Min - slack && (lastN + 1) * spacing > s.Max + slack
 //@   ensures [cover]    roundOut ==> firstN * spacing <= s.Min + slack && lastN * spacing >= s.Max - slack
 //@   ensures [snug]     roundOut ==> (firstN + 1) * spacing > s.Min + slack && (lastN - 1) * spacing < s.Max - slack
 //@   assigns nothing
 
+// Closed forms of the tick range at a level (no rounding: model real).
+//@ spec lsp(s Linear, level int) float64 = pow(s.Base == 0 ? 10 : s.Base, floor(level / 2.0)) * ((s.Base == 0 && level % 2 != 0) ? 5 : 1)
+//@ spec lfirst(s Linear, level int, out bool) float64 = out ? floor((s.Min + (s.Max - s.Min) * 1e-10) / lsp(s, level)) : ceil((s.Min - (s.Max - s.Min) * 1e-10) / lsp(s, level))
+//@ spec llast(s Linear, level int, out bool) float64 = out ? ceil((s.Max - (s.Max - s.Min) * 1e-10) / lsp(s, level)) : floor((s.Max + (s.Max - s.Min) * 1e-10) / lsp(s, level))
+
+// The i-th of n = l - f + 1 evenly spaced values from f*sp to l*sp is the
+// integer multiple (f + i)*sp of the spacing.
+//@ lemma linspace_multiples(f real, l real, sp real, i real)
+//@   model real
+//@   requires l > f
+//@   ensures f*sp + i*(l*sp - f*sp)/((l - f + 1) - 1) == (f + i)*sp
+
+// Ticks (f + i)*sp, 0 <= i <= l - f, lie inside [lo - slack, hi + slack] when
+// the first and the last do, and ascend strictly.
+//@ lemma ticks_inside(f real, l real, sp real, lo real, hi real, i real)
+//@   model real
+//@   requires sp > 0 && f*sp >= lo && l*sp <= hi && 0 <= i && i <= l - f
+//@   ensures lo <= (f + i)*sp && (f + i)*sp <= hi && (f + i)*sp < (f + i + 1)*sp
+
 //@ func linearTicker.CountTicks
 //@   model real
+//@   dispatch
 //@   requires t.s != nil && (t.s.Base == 0 || t.s.Base >= 2) && t.s.Min <= t.s.Max
-//@   ensures [nonneg-range] true
+//@   ensures [count-in]  !t.roundOut ==> result == llast(*t.s, level, false) - lfirst(*t.s, level, false) + 1
+//@   ensures [count-out] t.roundOut ==> result == llast(*t.s, level, true) - lfirst(*t.s, level, true) + 1
+//@   ensures [nonneg] !t.roundOut ==> result >= 0
+//@   assigns nothing
+
+//@ func linearTicker.TicksAtLevel
+//@   model real
+//@   requires t.s != nil && (t.s.Base == 0 || t.s.Base >= 2) && t.s.Min <= t.s.Max && !t.roundOut
+//@   let n = llast(*t.s, level, false) - lfirst(*t.s, level, false) + 1
+//@   ensures [type]      hastype(result, []float64)
+//@   ensures [count]     len(result.([]float64)) == n
+//@   ensures [one]       n == 1 ==> result.([]float64)[0] == lfirst(*t.s, level, false) * lsp(*t.s, level)
+//@   ensures [linspace]  len(result.([]float64)) >= 2 ==> (forall i in 0..len(result.([]float64)) :: result.([]float64)[i] == lfirst(*t.s, level, false) * lsp(*t.s, level) + i * (llast(*t.s, level, false) * lsp(*t.s, level) - lfirst(*t.s, level, false) * lsp(*t.s, level)) / (len(result.([]float64)) - 1))
+//@   ensures [fresh]     fresh(result.([]float64))
+//@   assigns nothing
+
+//@ func Linear.CountTicks
+//@   model real
+//@   requires (s.Base == 0 || s.Base >= 2) && s.Min <= s.Max
+//@   ensures [count] result == lcnt(s, level)
+//@   assigns nothing
+
+//@ func Linear.TicksAtLevel
+//@   model real
+//@   requires (s.Base == 0 || s.Base >= 2) && s.Min <= s.Max
+//@   ensures [type]      hastype(result, []float64)
+//@   ensures [count]     len(result.([]float64)) == lcnt(s, level)
+//@   ensures [one]       lcnt(s, level) == 1 ==> result.([]float64)[0] == lfirst(s, level, false) * lsp(s, level)
+//@   ensures [linspace]  len(result.([]float64)) >= 2 ==> (forall i in 0..len(result.([]float64)) :: result.([]float64)[i] == lfirst(s, level, false) * lsp(s, level) + i * (llast(s, level, false) * lsp(s, level) - lfirst(s, level, false) * lsp(s, level)) / (len(result.([]float64)) - 1))
+//@   ensures [fresh]     fresh(result.([]float64))
+//@   assigns nothing
+
+// Ticks: the major ticks are the ticks of the finest level whose count is at
+// most o.Max, the minor ticks those of the level below. Precondition
+// [monotone]: the closed-form tick count is non-increasing in the level (a
+// fact about floor and powers that is not proved here; FindLevel needs it).
+//@ spec lcnt(s Linear, level int) float64 = llast(s, level, false) - lfirst(s, level, false) + 1
+//@ spec lnorm(s Linear) Linear = s.Min > s.Max ? Linear{s.Max, s.Min, s.Base, s.Clamp} : s
+//@ func Linear.Ticks
+//@   model real
+//@   abstract lsp, lfirst, llast
+//@   requires (s.Base == 0 || s.Base >= 2)
+//@   requires [monotone] forall a int, b int :: a <= b ==> lcnt(lnorm(s), a) >= lcnt(lnorm(s), b)
+//@   let ns = lnorm(s)
+//@   let lo = (o.MinLevel == 0 && o.MaxLevel == 0) ? -1000 : o.MinLevel
+//@   let hi = (o.MinLevel == 0 && o.MaxLevel == 0) ? 1000 : o.MaxLevel
+//@   ensures [none]   o.Max <= 0 ==> len(major) == 0 && len(minor) == 0
+//@   ensures [single] o.Max > 0 && s.Min == s.Max ==> len(major) == 1 && major[0] == s.Min && len(minor) == 1 && minor[0] == s.Min
+//@   ensures [at-most-max] len(major) <= max(o.Max, 0)
+//@   check @ret3 [fail]   lo > hi || (forall m in lo..hi+1 :: lcnt(ns, m) > o.Max)
+//@   check @ret4 [level]  lo <= level && level <= hi && lcnt(ns, level) <= o.Max
+//@   check @ret4 [finest] forall m in lo..level :: lcnt(ns, m) > o.Max
+//@   check @ret4 [major-count] len(major) == lcnt(ns, level)
+//@   check @ret4 [minor-count] len(minor) == lcnt(ns, level - 1)
+//@   check @ret4 [major-one]      lcnt(ns, level) == 1 ==> major[0] == lfirst(ns, level, false) * lsp(ns, level)
+//@   check @ret4 [major-linspace] len(major) >= 2 ==> (forall i in 0..len(major) :: major[i] == lfirst(ns, level, false) * lsp(ns, level) + i * (llast(ns, level, false) * lsp(ns, level) - lfirst(ns, level, false) * lsp(ns, level)) / (len(major) - 1))
+//@   check @ret4 [minor-one]      lcnt(ns, level - 1) == 1 ==> minor[0] == lfirst(ns, level - 1, false) * lsp(ns, level - 1)
+//@   check @ret4 [minor-linspace] len(minor) >= 2 ==> (forall i in 0..len(minor) :: minor[i] == lfirst(ns, level - 1, false) * lsp(ns, level - 1) + i * (llast(ns, level - 1, false) * lsp(ns, level - 1) - lfirst(ns, level - 1, false) * lsp(ns, level - 1)) / (len(minor) - 1))
 //@   assigns nothing
 
 // Nice is verified in model xreal (NaN / +-Inf); spacingAtLevel is executed
